@@ -111,7 +111,7 @@ def judge(case):
         tags.append("predicate-atoms>=13")
         nt = True
     tags += common.pre_noise(case)
-    res = sut.compile_text(text)
+    res = sut.compile_text(text, strict_warnings=True)
     if res[0] != "ok":
         after = ""
         if case.get("noise"):
@@ -147,7 +147,7 @@ def judge_text(case):
     ids = {t for ty, t in refgrammar.lex(text) if ty == "ID"}
     if ids & (known_ids("field") | known_ids("name") | gen.AMBIGUOUS_NAMES):
         return {"viol": [], "nontrivial": False, "tags": ["text:k1"]}
-    res = sut.compile_text(text)
+    res = sut.compile_text(text, strict_warnings=True)
     viol = [] if res[0] == "ok" else ["grammatical text does not compile: %s: %s | %r" % (res[1], res[2], text)]
     return {"viol": viol, "nontrivial": True, "tags": ["text:sentence"], "key": text}
 
